@@ -82,7 +82,7 @@ fn key_of(sg: &Sg, prio: u8) -> Option<i128> {
 pub fn run_case(c: &DCase, n: u64) -> Verdict {
     let g = build_and_group("c08", c, n, Fs::Tmpfs);
     let target = target_dir(&g.cd, c);
-    if c.op == Op::Move && c.move_target == 2 {
+    if c.op == Op::Move && c.move_target >= 2 {
         let _ = std::fs::create_dir_all(&target);
     }
     let v = judge(c, &g, &target);
